@@ -10,9 +10,22 @@
 #include "src/interpret.h"
 #include "src/main.h"
 #include "vharness.h"
+#include <ctype.h>
 main_options_t *g_main_options; static main_options_t G_opts;
 int debug_message_with_src(const char *a, const char *b, const char *c, int d, const char *e, ...) { return 0; }
 size_t svalue_save_size(const svalue_t *v);
 void save_svalue(svalue_t *v, char **buf);
 int V_STATIC(object_c, parse_numeric)(char **cpp, char c, svalue_t *dest);
+
+/* glibc's isdigit() is a table lookup through __ctype_b_loc(); CBMC has no model, so supply the table
+   (trusted libc model: _ISdigit for '0'..'9' only) */
+#ifndef V_NATIVE
+static unsigned short G_ctype_tab[384];
+static const unsigned short *G_ctype_ptr;
+const unsigned short **__ctype_b_loc(void) {
+  for (int c = '0'; c <= '9'; c++) G_ctype_tab[128 + c] = (unsigned short)_ISdigit;
+  G_ctype_ptr = &G_ctype_tab[128];
+  return &G_ctype_ptr;
+}
+#endif
 #endif
